@@ -453,9 +453,15 @@ def run_other_mode(case, readout, det, tmpdir):
     if not log or len(log) % (2 * n):
         return {"error": "Other:log-not-whole-runs", "stage": "run", "calls": len(log), "msg": f"{len(log)} probe records for runs of {n} steps", "op_ok": []}
     runs = []
-    for k in range(0, len(log), 2 * n):
-        obs, same = obs_from_log(log[k:k + 2 * n])
-        runs.append({"obs": obs, "rp_same": same})
+    by_det: dict = {}
+    for rec in log:  # the records of one detector object are sequential; different objects may interleave (threads)
+        by_det.setdefault(rec[11], []).append(rec)
+    for recs in by_det.values():
+        if len(recs) % (2 * n):
+            return {"error": "Other:log-not-whole-runs", "stage": "run", "calls": len(log), "msg": f"{len(recs)} probe records of one detector for runs of {n} steps", "op_ok": []}
+        for k in range(0, len(recs), 2 * n):
+            obs, same = obs_from_log(recs[k:k + 2 * n])
+            runs.append({"obs": obs, "rp_same": same})
     return {"runs": runs, "op_ok": []}
 
 
